@@ -426,11 +426,30 @@ func (c *FnCtx) execSwitch(x *ast.SwitchStmt, st *State) Outs {
 				cnd = c.equal(tag, c.convertTo(v, c.typeOf(e), tagT, evalSt), tagT, evalSt, e.Pos())
 			} else {
 				sub := evalSt.clone()
+				var guards []string
 				for _, p := range conds {
 					sub.addCond(not(p))
+					guards = append(guards, not(p))
 				}
+				nh := len(sub.hyps)
 				cnd = c.eval(e, sub)
-				// keep facts learnt while evaluating (safety assumptions) out of the main state
+				// definitions and facts learnt while evaluating this case expression (callee postconditions, safety
+				// assumptions) hold whenever it was evaluated, i.e. when no earlier expression of the clause matched
+				g := and(guards...)
+				for _, h := range sub.hyps[nh:] {
+					switch h.kind {
+					case 'd':
+						evalSt.hyps = append(evalSt.hyps, h)
+					case 'f', 'c':
+						evalSt.hyps = append(evalSt.hyps, Hyp{implies(g, h.s), 'f'})
+					}
+				}
+				for k, v := range sub.heap {
+					if evalSt.heap[k] != v {
+						old := c.h(evalSt, k, c.heapSort[k])
+						c.setH(evalSt, k, c.heapSort[k], ite(g, v, old))
+					}
+				}
 			}
 			conds = append(conds, cnd)
 		}
@@ -567,7 +586,31 @@ func (c *FnCtx) execReturn(x *ast.ReturnStmt, st *State) {
 		}
 	}
 	c.retSite = c.src(x)
+	if fr.isTop && fr.fd != nil && c.isDuplicatedLastReturn(fr.fd, x) {
+		// the final return statement of the function, when its text also occurs earlier, gets a name of its own
+		// (contracts can then declare it unreachable without depending on path numbering)
+		c.retSite += " (last)"
+	}
 	c.finishReturn(st, vals, x.Pos())
+}
+
+// isDuplicatedLastReturn: x is the last statement of the function body and another return with the same text exists.
+func (c *FnCtx) isDuplicatedLastReturn(fd *ast.FuncDecl, x *ast.ReturnStmt) bool {
+	if fd.Body == nil || len(fd.Body.List) == 0 || fd.Body.List[len(fd.Body.List)-1] != ast.Stmt(x) {
+		return false
+	}
+	text := c.src(x)
+	dup := false
+	ast.Inspect(fd.Body, func(n ast.Node) bool {
+		if _, isLit := n.(*ast.FuncLit); isLit {
+			return false
+		}
+		if r, ok := n.(*ast.ReturnStmt); ok && r != x && c.src(r) == text {
+			dup = true
+		}
+		return true
+	})
+	return dup
 }
 
 func (c *FnCtx) finishReturn(st *State, vals []string, pos token.Pos) {
